@@ -12,7 +12,8 @@ RULE = ("case = (class, non-default constructor options, get_config before/"
         "after the first call, probe tensors, TF seed). Deterministic part: for "
         "each of the 14 classes every single non-default option value on top of "
         "every alpha kind, plus a greedy pairwise-covering set of admissible "
-        "option combinations (thorough: full admissible product where <= 5000); "
+        "option combinations (thorough: plus the full admissible product of every "
+        "class with <= 1100 configurations); "
         "random part: Hypothesis draws every option independently plus a probe "
         "tensor. Every case is rebuilt through 4 routes and original and "
         "rebuilt quantizers are called on every probe under learning phase 0 "
